@@ -2,6 +2,7 @@
 #include "lpc/compiler.h"
 
 void init_binaries();
+void binaries_simul_efun_loaded();
 
 program_t *load_binary(const char *);
 
